@@ -153,6 +153,16 @@ class Opaque(Spec):
     return VOpaque(self.what or name)
 
 
+class Rng(Spec):
+  """a numpy RandomState obtained from check_random_state(<int seed>) by the caller"""
+  def __init__(self, source='int-seed'):
+    self.source = source
+
+  def make(self, name, p, ex):
+    from .libspec_shape import new_extobj
+    return new_extobj(p, 'rng', source=self.source, seed=None)
+
+
 class Const(Spec):
   def __init__(self, v):
     self.v = v
@@ -186,6 +196,10 @@ class ArrView:
   @property
   def kind(self):
     return self.st.kind
+
+  @property
+  def vf(self):
+    return self.st.vf
 
   @property
   def owner(self):
